@@ -320,7 +320,7 @@ def whence(ctx):
     if chain_end is not None:
         ctx.check(any(isinstance(x, ast.Raise) and call_name(x.exc) == "ValueError" for x in chain_end.orelse), chain_end, "any other whence raises ValueError")
     if 0 in handled:
-        ctx.check(all(isinstance(x, ast.Pass) for x in handled[0].body), handled[0], "whence 0: absolute offset unchanged")
+        ctx.check(not any("offset" in stores_to(x) for s_ in handled[0].body for x in walk_local(s_) if isinstance(x, (ast.Assign, ast.AugAssign))), handled[0], "whence 0: absolute offset unchanged")
     if 1 in handled:
         st = [a for a in handled[1].body if isinstance(a, ast.Assign) and "offset" in stores_to(a)]
         ctx.check(bool(st) and unparse(st[0].value) in ("self._pos + offset", "offset + self._pos"), st[0] if st else handled[1], "whence 1: target = position + offset", "whence 1 computes %s" % (unparse(st[0].value) if st else None))
@@ -363,17 +363,21 @@ def flush(ctx):
 
 
 def guards(ctx):
+    from ..core import mentions
     want = {"read": "_check_can_read", "write": "_check_can_write", "seek": "_check_can_seek", "tell": "_check_not_closed", "readinto": None, "close": None}
     for name, chk in want.items():
         f = ZF(ctx, name)
-        body = [s for s in f.body if not (isinstance(s, ast.Expr) and isinstance(s.value, ast.Constant))]
-        w = body[0] if body else None
-        ok = len(body) == 1 and isinstance(w, ast.With) and any(dotted(i.context_expr) == "self._lock" for i in w.items)
-        ctx.check(ok, w or f, "%s runs entirely under self._lock" % name, "%s is not wrapped in `with self._lock`" % name)
+        g = cfg_of(f)
+        ws = [w for w in f.body if isinstance(w, ast.With) and any(dotted(i.context_expr) == "self._lock" for i in w.items)]
+        outside = [s_ for s_ in f.body if s_ not in ws and any(isinstance(n, ast.Attribute) and isinstance(n.value, ast.Name) and n.value.id == "self" for n in ast.walk(s_))]
+        ok = len(ws) == 1 and not outside
+        ctx.check(ok, ws[0] if ws else f, "%s: every statement touching the object's state runs under self._lock" % name,
+                  "%s touches the object's state outside `with self._lock` (%s)" % (name, [unparse(x, 40) for x in outside] or "no locked block"))
         if ok and chk:
-            first = w.body[0]
-            ctx.check(isinstance(first, ast.Expr) and isinstance(first.value, ast.Call) and call_name(first.value) == "self." + chk, first, "%s starts with %s()" % (name, chk),
-                      "%s does not start with %s()" % (name, chk))
+            cc = [c for c in calls_in(ws[0]) if call_name(c) == "self." + chk]
+            others = [c for c in calls_in(ws[0]) if c not in cc and (call_name(c) or "").startswith("self.")]
+            ctx.check(bool(cc) and g.every_path_to(g.nodes_of_all(others), g.nodes_of_all(cc)), cc[0] if cc else ws[0], "%s: %s() precedes every other operation on the object" % (name, chk),
+                      "%s does not call %s() before operating on the object" % (name, chk))
     r = ZF(ctx, "read")
     g = cfg_of(r)
     for c in calls_in(r):
@@ -590,7 +594,8 @@ def dump_flow(ctx):
     pc = [c for c in calls_in(ni) if call_name(c) == "Pickler.__init__"]
     ctx.check(bool(pc) and dotted(kwarg(pc[0], "protocol", 2)) == "protocol" and dotted(pc[0].args[1]) == "self.file_handle", pc[0] if pc else ni, "NumpyPickler forwards protocol and file handle to pickle._Pickler")
     t = [n for n in nodes_of_type(ni, ast.If) if unparse(n.test) == "protocol is None"]
-    ctx.check(bool(t) and unparse(t[0].body[0]) == "protocol = pickle.DEFAULT_PROTOCOL", t[0] if t else ni, "protocol defaults to pickle.DEFAULT_PROTOCOL")
+    from ..core import has_stmt
+    ctx.check(bool(t) and has_stmt(t[0].body, "protocol = pickle.DEFAULT_PROTOCOL"), t[0] if t else ni, "protocol defaults to pickle.DEFAULT_PROTOCOL")
     # compress argument resolution
     tt = [n for n in nodes_of_type(f, ast.If) if unparse(n.test) == "compress is True"]
     ctx.check(bool(tt), tt[0] if tt else f, "compress=True selects the default method/level")
